@@ -55,13 +55,14 @@ def build_tools(ctx):
     """(re)build translators and harness from files on disk; the harness links /repo's working tree."""
     os.makedirs(BIN, exist_ok=True)
     t = time.time()
-    af = os.path.join(BIN, 'astfacts')
-    src = os.path.join(ROOT, 'translators', 'astfacts')
-    if not os.path.exists(af) or os.path.getmtime(af) < max(os.path.getmtime(os.path.join(src, f)) for f in os.listdir(src)):
-        rc, out = sh(['go', 'build', '-o', af, '.'], cwd=src, env=GOENV)
-        if rc != 0:
-            ctx.fail('tool', 'astfacts does not build', detail=out[-2000:])
-            return False
+    for tool in ('astfacts', 'go2lean'):
+        af = os.path.join(BIN, tool)
+        src = os.path.join(ROOT, 'translators', tool)
+        if not os.path.exists(af) or os.path.getmtime(af) < max(os.path.getmtime(os.path.join(src, f)) for f in os.listdir(src)):
+            rc, out = sh(['go', 'build', '-o', af, '.'], cwd=src, env=GOENV)
+            if rc != 0:
+                ctx.fail('tool', f'{tool} does not build', detail=out[-2000:])
+                return False
     ctx.timing['build_astfacts'] = round(time.time() - t, 2)
     return True
 
@@ -117,6 +118,72 @@ def _regen_crctable(ctx):
         ctx.fail('tool', 'translator crctable failed (source shape changed?)', detail=out[-2000:])
         return False
     return True
+
+
+# Go → Lean translation of the CURRENT bodies of selected functions of REPO (translators/go2lean, notes/go2lean.md):
+# one regeneration step per unit, `go2lean:<unit>` → lean/FitModel/Generated/Go_<unit>.lean. A construct outside the
+# translator's subset is a broken tie (kind `tool`): the unit's file is replaced by a stub that does not compile.
+GO2LEAN_UNITS = ('crc16', 'basetype', 'proto', 'decoder', 'decoderbits', 'encoder')
+
+def _go2lean_step(unit):
+    def step(ctx):
+        rc, out = sh([os.path.join(BIN, 'go2lean'), REPO, os.path.join(LEAN, 'FitModel', 'Generated'), unit], env=GOENV)
+        if rc != 0:
+            ctx.fail('tool', f'translator go2lean failed on unit {unit}: a translated function left the subset of Go the translator '
+                             f'supports, or its anchor was not found (the tie by translation is broken, not necessarily the property): '
+                             + out.strip()[-400:], detail=out[-2000:], go2lean_unit=unit)
+            return False
+        return True
+    return step
+
+for _u in GO2LEAN_UNITS:
+    REGEN['go2lean:' + _u] = _go2lean_step(_u)
+
+
+def go2lean_search(ctx, spec):
+    """An agreement theorem (`Cxx_go2lean_*`: translated Go function = hand-written model function) no longer checks, or the
+    translation failed: look for a concrete argument on which the two differ (lean/Go2LeanDiff/<Topic>.lean evaluates both on
+    boundary and enumerated arguments) and, where the script can name an operation line that reaches those arguments, test the
+    property on the implementation with it. The differing arguments go into the replay of the proof failure."""
+    topics = spec.get('go2lean_diff', [])
+    if not topics:
+        return
+    pf = [f for f in ctx.failures if f['kind'] == 'proof' and any('go2lean' in (b.get('decl') or '').lower() or 'Go2Lean' in (b.get('file') or '')
+                                                                  or 'Generated/Go_' in (b.get('file') or '') for b in f.get('broken', []))]
+    if not pf:
+        return
+    t = time.time()
+    diffs = []
+    for topic in topics:
+        rc, out = sh(['lake', 'env', 'lean', '--run', os.path.join('Go2LeanDiff', topic + '.lean')], cwd=LEAN, timeout=600)
+        lines = [l for l in out.split('\n') if l.startswith('DIFF ')]
+        if 'DONE' not in out:
+            ctx.log(f'go2lean: difference search {topic} did not run to its end (the translated definitions changed shape?): ' + out.strip()[-300:].replace('\n', ' '))
+        diffs += lines
+    ctx.timing['go2lean_search'] = round(time.time() - t, 2)
+    pf[0]['go2lean_diff'] = diffs[:20]
+    if not diffs:
+        ctx.log('go2lean: no argument found on which the translated functions and the model differ (enumerated/boundary arguments)')
+        return
+    ctx.log(f'go2lean: translated function and model differ, e.g. {diffs[0][:200]}')
+    fams = [f if isinstance(f, dict) else dict(name=f) for f in spec.get('families', [])]
+    sm = any(f.get('spec') for f in fams); pm = any(f.get('prop') for f in fams)
+    ops = []
+    for l in diffs:
+        m = re.search(r' op=(.*)$', l)
+        if m and m.group(1).strip() not in ('-', ''):
+            ops.append(m.group(1).strip())
+    ops = list(dict.fromkeys(ops))
+    if not ops or any(f['kind'] == 'prop' for f in ctx.failures):
+        return
+    res = prop_fails(ops, sm, pm)
+    model = run_driver(ops)
+    for o, r, mo in zip(ops, res, model):
+        if r[0]:
+            ctx.fail('prop', 'property fails on the implementation on the input derived from the argument on which the translated '
+                             'function and the model differ', op=o, impl=r[1], demanded=r[2], model=mo, go2lean_diff=diffs[:5])
+            return
+    ctx.log(f'go2lean: the property holds on the implementation for the {len(ops)} derived inputs')
 
 
 def harness_regen(ctx, sub, outfile):
@@ -606,7 +673,11 @@ def prove(ctx, spec):
     proof['axioms'] = {k: v for k, v in ax.items()}
     if ctx.tier == 'thorough' and spec.get('leanchecker', True):
         t = time.time()
-        rc, o = sh(['lake', 'env', 'leanchecker', f'FitProps.{prop}'], cwd=LEAN)
+        rc, o = 0, ''
+        for mod in [m for m in prop_modules(prop) if m == prop or m.endswith('Go2Lean')]:   # FitProps.Cxx and FitProps.CxxGo2Lean
+            rc1, o1 = sh(['lake', 'env', 'leanchecker', f'FitProps.{mod}'], cwd=LEAN)
+            if rc1 != 0:
+                rc, o = rc1, o + f'FitProps.{mod}: ' + o1
         ctx.timing['leanchecker'] = round(time.time() - t, 2)
         proof['leanchecker'] = 'ok' if rc == 0 else 'FAILED'
         if rc != 0:
@@ -639,6 +710,7 @@ def run_check(prop, tier, seed):
                 hook = spec.get('extra')
                 if hook:
                     hook(ctx, spec)
+                go2lean_search(ctx, spec)
         if not any(f['kind'] == 'tool' for f in ctx.failures):
             report_known(ctx, spec)
     except Exception as e:  # the check itself broke: never a silent pass
